@@ -15,7 +15,7 @@ from constantly import NamedConstant
 
 from twisted.python._tzhelper import FixedOffsetTimeZone
 from twisted.python.failure import Failure
-from twisted.python.reflect import safe_repr
+from twisted.python.reflect import safe_repr, safe_str
 from ._flatten import aFormatter, flatFormat
 from ._interfaces import LogEvent
 
@@ -318,9 +318,9 @@ def _formatTraceback(failure: Failure) -> str:
     @return: The formatted traceback.
     """
     try:
-        traceback = failure.getTraceback()
+        traceback = str(failure.getTraceback())
     except BaseException as e:
-        traceback = "(UNABLE TO OBTAIN TRACEBACK FROM EVENT):" + str(e)
+        traceback = "(UNABLE TO OBTAIN TRACEBACK FROM EVENT):" + safe_str(e)
     return traceback
 
 
@@ -335,23 +335,23 @@ def _formatSystem(event: LogEvent) -> str:
 
     @return: A formatted string representing the "log_system" key.
     """
-    system = cast(Optional[str], event.get("log_system", None))
-    if system is None:
-        level = cast(Optional[NamedConstant], event.get("log_level", None))
-        if level is None:
-            levelName = "-"
-        else:
-            levelName = level.name
+    try:
+        system = cast(Optional[str], event.get("log_system", None))
+        if system is None:
+            level = cast(Optional[NamedConstant], event.get("log_level", None))
+            if level is None:
+                levelName = "-"
+            else:
+                levelName = level.name
 
-        system = "{namespace}#{level}".format(
-            namespace=cast(str, event.get("log_namespace", "-")),
-            level=levelName,
-        )
-    else:
-        try:
+            system = "{namespace}#{level}".format(
+                namespace=cast(str, event.get("log_namespace", "-")),
+                level=levelName,
+            )
+        else:
             system = str(system)
-        except Exception:
-            system = "UNFORMATTABLE"
+    except BaseException:
+        system = "UNFORMATTABLE"
     return system
 
 
@@ -408,7 +408,12 @@ def eventAsText(
 
     timeStamp = ""
     if includeTimestamp:
-        timeStamp = "".join([formatTime(cast(float, event.get("log_time", None))), " "])
+        try:
+            timeStamp = "".join(
+                [formatTime(cast(float, event.get("log_time", None))), " "]
+            )
+        except BaseException:
+            timeStamp = "- "
 
     system = ""
     if includeSystem:
